@@ -1356,30 +1356,55 @@ theorem isDocLine_tail {c : Nat} {r : Text} (h : IsDocLine (c :: r)) : IsDocLine
   | none => simp [hf] at h
   | some k => simp [hf] at h; rw [h]
 
-/-- `scan_grammar_doc_inner` / `scan_rule_doc_inner` on a canonical doc line -/
-theorem sp_docInner {l : Text} (h : IsDocLine l) (more : Text) :
-    Sp docInner (l ++ 10 :: more) () (10 :: more) [(.commentText, l)] := by
-  intro s hs
-  have key : ∃ n, docInner s = .ok () ((s.adv n).emit .commentText (s.rest.take n)) ∧
-      n = l.length := by
-    cases l with
-    | nil =>
-      refine ⟨0, ?_, rfl⟩
-      simp only [List.nil_append] at hs
-      simp [docInner, hs, findNewline]
+/-- the optional blank behind the marker is skipped, and nothing else: what follows is the line
+    `l` (which does not start with a blank if there was none to skip) and then `X` -/
+theorem docBlank_sp {sp l X : Text} {s : St} (hsp : DocSp sp l)
+    (hX : X.head? ≠ some 32 ∧ X.head? ≠ some 9) (hs : s.rest = sp ++ (l ++ X)) :
+    (docBlank s).rest = l ++ X ∧ out (docBlank s) = out s := by
+  unfold docBlank
+  rcases hsp with rfl | rfl | ⟨rfl, h1, h2⟩
+  · simp only [List.cons_append, List.nil_append] at hs
+    simp [hs, out, St.adv]
+  · simp only [List.cons_append, List.nil_append] at hs
+    simp [hs, out, St.adv]
+  · simp only [List.nil_append] at hs
+    cases hr : s.rest with
+    | nil => simp only; exact ⟨by rw [← hs, hr], trivial⟩
     | cons c r =>
-      simp only [List.cons_append] at hs
-      by_cases hc : (c == 32 || c == 9) = true
-      · refine ⟨1 + r.length, ?_, by simp; omega⟩
-        have := findNewline_doc r more (isDocLine_tail h)
-        simp [docInner, hs, hc, this]
-      · refine ⟨0 + (r.length + 1), ?_, by simp⟩
-        have := findNewline_doc (c :: r) more h
-        simp only [List.cons_append, List.length_cons] at this
-        simp [docInner, hs, hc, this]
-  obtain ⟨n, e, hn⟩ := key
-  subst hn
-  exact ⟨_, e, by simp [hs], by simp [hs]⟩
+      simp only
+      have hc : (c == 32 || c == 9) = false := by
+        have hh : (l ++ X).head? = some c := by rw [← hs, hr]; rfl
+        cases l with
+        | nil =>
+          simp only [List.nil_append] at hh
+          have a := hX.1; have b := hX.2
+          rw [hh] at a b
+          simp only [ne_eq, Option.some.injEq] at a b
+          simp [a, b]
+        | cons d l' =>
+          simp only [List.cons_append, List.head?_cons, Option.some.injEq] at hh
+          subst hh
+          simp only [List.head?_cons, ne_eq, Option.some.injEq] at h1 h2
+          simp [h1, h2]
+      rw [hc]
+      simp only [Bool.false_eq_true, if_false]
+      exact ⟨by rw [← hs, hr], trivial⟩
+
+/-- `scan_grammar_doc_inner` / `scan_rule_doc_inner` on a doc line: the marker's blank is
+    dropped, the line is the token -/
+theorem sp_docInner {sp l : Text} (hsp : DocSp sp l) (h : IsDocLine l) (more : Text) :
+    Sp docInner (sp ++ (l ++ 10 :: more)) () (10 :: more) [(.commentText, l)] := by
+  intro s hs
+  obtain ⟨hr, ho⟩ := docBlank_sp hsp (X := 10 :: more) (by simp) hs
+  have hf := findNewline_doc l more h
+  refine ⟨((docBlank s).adv l.length).emit .commentText ((docBlank s).rest.take l.length), ?_, ?_, ?_⟩
+  · unfold docInner
+    simp only [hr, hf, Option.getD_some]
+  · simp [hr]
+  · simp [hr, ho]
+
+/-- the printer's blank is a legal separator for every line -/
+theorem docSp_blank (l : Text) : DocSp [32] l := .inl rfl
 
 /-! ### modifiers -/
 
